@@ -152,8 +152,17 @@ func (ch c13) runCase(c *core.Ctx, env *hs.Env, k c13case, rng *core.Rng, idx in
 			return
 		}
 		c.Count("execute_mode_cycles", 1)
-	} else if !step("Query", pg.Query("copy"), "TG") { // simple mode announces the columns first
-		return
+	} else {
+		if idx%4 == 1 {
+			// the COPY query arrives inside an open extended-query sequence (Parse + Flush, no Sync yet)
+			if !step("Parse + Flush before the COPY query", append(pg.Parse("pre", "probe", nil), pg.Flush()...), "1") {
+				return
+			}
+			c.Count("copy_inside_open_extended_sequence", 1)
+		}
+		if !step("Query", pg.Query("copy"), "TG") { // simple mode announces the columns first
+			return
+		}
 	}
 	c.Count("copy_cycles", 1)
 	// model of what the handler must observe
@@ -662,6 +671,30 @@ func (ch c13) Run(c *core.Ctx) {
 		}
 		fix(&k, rng)
 		ch.runCase(c, env, k, rng, idx)
+	}
+	// COPY started by a statement without columns: CopyIn fails, the handler's error ends the cycle
+	if c.Begin(2999999) {
+		for _, exec := range []bool{false, true} {
+			plan := &hs.CopyPlan{Format: wire.TextFormat, MaxReads: -1, OnErr: "propagate"}
+			probe := &hs.Prog{Stmts: []*hs.Stmt{{ID: "probe", Cols: textCols(1), Ops: []hs.Op{{K: "row", Vals: []any{"p"}}, {K: "complete", Tag: "SELECT 1"}}}}}
+			sess := &hs.Sess{Progs: map[string]*hs.Prog{"copy": {Stmts: []*hs.Stmt{{ID: "copy", Params: []oid.Oid{}, Ops: []hs.Op{{K: "copy", Copy: plan}}}}}, "probe": probe}}
+			cl := hs.NewClient(env.Dial(sess))
+			if err := cl.StartupOK("u"); err != nil {
+				continue
+			}
+			in, want := pg.Query("copy"), "EZ"
+			if exec {
+				in = append(append(append(pg.Parse("", "copy", nil), pg.Bind("", "", nil, nil, nil)...), pg.Execute("", 0)...), pg.Sync()...)
+				want = "12EZ"
+			}
+			out, closed := cl.Step(in)
+			out2, _ := cl.Step(pg.Query("probe"))
+			if got := pg.Types(mustMsgs(out)); closed || got != want || pg.Types(mustMsgs(out2)) != "TDCZ" {
+				c.Violate("no-columns", "COPY started without columns does not end in one ErrorResponse and one ReadyForQuery", fmt.Sprintf("exec=%v reply %q (want %q), probe %q", exec, got, want, pg.Types(mustMsgs(out2))), nil)
+			}
+			c.Count("copy_without_columns", 1)
+			cl.Finish()
+		}
 	}
 	for i := c.Batch; i < nrand/5; i += nb {
 		idx = 3000000 + i
